@@ -1,4 +1,6 @@
 #!/bin/bash
 # Repository baseline with the guard OFF (no overlay, no tags): /repo contains no hook code.
-. /verif/bin/env.sh
-cd /repo && go test -vet=off -count=1 -timeout 25m ./...
+# Runs the repository's whole test suite exactly as the pinned baseline does (go test -vet=off -count=1 ./...) and
+# exits 0 iff every test listed as stable_pass in /root/.vp/BASELINE.json passes (the baseline itself records 6 tests
+# that always fail in this sandbox - pkg/routing needs a routable network - and 1 flaky one; they are not demanded).
+exec /verif/bin/basecmp /repo ./...
